@@ -11,25 +11,31 @@ same texts. As theorems this file proves the pieces the round trip rests on:
    never a raw `"`, control character or DEL inside quotes (`ascii_quote_safe`), and the parser
    takes the text between the quotes as it is (C05 `ascii_quoted_exact`);
  * the header printer and the header fields (`header_shape`).
-**Parser half** (`print_parse_tokens`, for all inputs): the token stream the printed form of any
-number of valid messages consists of (`Sml.msgToks`: header tokens, then per item `<`, type,
-`[n]`, the printed values / quoted runs and hex codes / names / `...`, `>`, and the terminator)
-parses to exactly these messages — same name, stream, function, wait bit, direction and item
-tree; unaddressed, since the printed form does not carry the session — with no error and no
-warning. Hypotheses: the messages are valid, their items well formed with ASCII bounds that fit
-a Go int and ellipses numbered in order of appearance (what the parser itself assigns), and
-contain no float item and no error placeholder. The numbers read back by theorems of their
-own (`parseInt_intDec`, `parseUint_decDigits`, `parseInt_bin`, `parseUint_hexcode`).
-`print_parse_partial`: what is missing for `parse (print m) = ([m], [], [])` is the lexer half —
-that `lexAll (print m)` is `msgToks m` with positions — and floats: the law
-`parseFloat (fmtG b) = b` is a property of the library routines (shortest round trip),
-validated by sweep against strconv, not proved. The lexer half is checked by the kernel on the
-sample below and on every run by the correspondence of lexer and printer with the code.
+**The round trip** (`print_parse`): for every valid message whose name the header lexer reads as
+one name (`NameOK`; `nameOK_of_simple` gives a sufficient condition) and whose item is absent, or
+well formed, free of floats and error placeholders, with ASCII bounds that fit a Go int,
+variable names that are not keywords (`namesPlainT`) and ellipses numbered in order of appearance
+(what the parser itself assigns), `parse (print m)` is exactly the one message `m` — same name,
+stream, function, wait bit, direction, item tree and variables; unaddressed, since the printed
+form does not carry the session — with no error and no warning. It is the composition of
+ * the lexer half `print_lex_tokens`: the printed form is lexed into the token stream `msgToks m`
+   (positions aside) — every token kind of the printed form is lexed as itself, for all values,
+   strings, names, nestings and indentations (`Proofs/LexPrinted`, `Proofs/LexPrintedItems`);
+ * the parser half `print_parse_tokens` (any number of messages at once): that token stream
+   parses to exactly these messages; the printed numbers read back by theorems of their own
+   (`parseInt_intDec`, `parseUint_decDigits`, `parseInt_bin`, `parseUint_hexcode`);
+ * `positions_irrelevant`: the parser does not look at positions.
+`print_parse_partial`, what is not covered: float items — the law `parseFloat (fmtG b) = b` is a
+property of the library routines (shortest round trip), validated by sweep against strconv, not
+proved — and the converse direction (printing each message of an accepted text and parsing it
+again is a fixed point), which is decided on the real code on every run.
 -/
 import SecsModel.Proofs.Decimal
 import SecsModel.Model.Print
 import SecsModel.Model.Parser
 import SecsModel.Proofs.PrintToks
+import SecsModel.Proofs.LexPrintedItems
+import SecsModel.Proofs.ParserNat
 import SecsModel.Proofs.LexLayout
 import SecsModel.Generated.Facts
 namespace Secs.C04
@@ -103,6 +109,73 @@ theorem print_parse_tokens (ms : List Msg)
   rcases hi with he | ⟨hw, hc, e, hel⟩
   · exact ⟨0, Or.inl ⟨he, rfl⟩⟩
   · exact ⟨e, Or.inr ⟨hw, hc, freshT_nil m.item hw hc, hel⟩⟩
+
+/-- **Lexer half**: the printed form of a message is lexed into `msgToks` (positions aside). -/
+theorem print_lex_tokens (ual : List Nat) (m : Msg) (hv : m.valid = true) (hname : NameOK m.name)
+    (hit : m.item = .empty ∨ (m.item.wf = true ∧ cleanT m.item = true ∧ namesPlainT m.item = true)) :
+    (Lex.lexAll ual m.print).map Lex.eraseT = msgToks m ++ [eofTok] :=
+  lex_message ual m hv hname hit
+
+/-- **The print → parse round trip**: parsing the printed form of a message gives exactly one
+message, equal to the original in name, stream, function, wait bit, direction and item tree
+(unaddressed: the printed form does not carry the session), no error and no warning.
+For every valid message whose name the header lexer reads as one name and whose item is
+absent, or well formed, free of floats and error placeholders, with ASCII bounds that fit a Go
+int, variable names that are not keywords, and ellipses numbered in order of appearance. -/
+theorem print_parse (ual : List Nat) (m : Msg) (hv : m.valid = true) (hname : NameOK m.name)
+    (hit : m.item = .empty ∨ (m.item.wf = true ∧ cleanT m.item = true ∧ namesPlainT m.item = true ∧
+      ∃ e, ellAfter 0 m.item = some e)) :
+    parse ual m.print = .done [unaddressed m] [] [] := by
+  have hlex := print_lex_tokens ual m hv hname (by
+    rcases hit with h | ⟨h1, h2, h3, _⟩
+    · exact Or.inl h
+    · exact Or.inr ⟨h1, h2, h3⟩)
+  have hpar := print_parse_tokens [m] (by
+    intro x hx
+    simp only [List.mem_singleton] at hx
+    subst hx
+    refine ⟨hv, ?_⟩
+    rcases hit with h | ⟨h1, h2, _, h4⟩
+    · exact Or.inl h
+    · exact Or.inr ⟨h1, h2, h4⟩)
+  simp only [List.flatMap_cons, List.flatMap_nil, List.append_nil, List.map_cons, List.map_nil] at hpar
+  -- the parser sees the lexer's tokens without comments; positions are irrelevant to it
+  have hnc : (msgToks m ++ [eofTok]).filter Sml.notComment = msgToks m ++ [eofTok] := filter_all (msgToks_nc m)
+  have hcontent : (parse ual m.print).content = (parseToks (msgToks m ++ [eofTok])).content := by
+    unfold parse
+    apply positions_irrelevant
+    have e1 : ∀ l : List Lex.Tok, (l.filter (fun t => t.kind != .comment)).map eraseTok =
+        (l.map Lex.eraseT).filter Sml.notComment := by
+      intro l
+      induction l with
+      | nil => rfl
+      | cons t r ih =>
+        simp only [List.filter_cons, List.map_cons]
+        have : Sml.notComment (Lex.eraseT t) = (t.kind != .comment) := rfl
+        rw [this]
+        split
+        · simp only [List.map_cons, ih]; rfl
+        · exact ih
+    rw [e1, hlex, hnc]
+    have hX : (msgToks m ++ [eofTok]).map eraseTok = msgToks m ++ [eofTok] := by
+      rw [← hlex, List.map_map]
+      apply List.map_congr_left
+      intro t _
+      rfl
+    rw [hX]
+  rw [hpar] at hcontent
+  cases hp : parse ual m.print with
+  | panic => rw [hp] at hcontent; simp [Outcome.content] at hcontent
+  | done ms es ws =>
+    rw [hp] at hcontent
+    simp only [Outcome.content, Option.some.injEq, Prod.mk.injEq, List.map_nil, List.map_eq_nil_iff] at hcontent
+    rw [hcontent.1, hcontent.2.1, hcontent.2.2]
+
+/-- non-vacuity: the sample message (every item kind but floats, a name, a variable with bounds,
+an ellipsis) meets all hypotheses of `print_parse`, so for it `parse (print m) = [m]` is a theorem -/
+example : parse [] sample.print = .done [unaddressed sample] [] [] :=
+  print_parse [] sample (by decide +kernel) (nameOK_of_simple 78 [] (by decide) (by simp) (by decide))
+    (Or.inr ⟨by decide +kernel, by decide +kernel, by decide +kernel, ⟨1, by decide +kernel⟩⟩)
 
 /-- the printed numbers read back as themselves -/
 theorem printed_numbers_read_back :
